@@ -33,7 +33,7 @@ structure Heap where
   linked : Key → Bool := fun _ => false
 
 /-- What `ShardsForService` / `Shardz` see. -/
-def Heap.index (h : Heap) : Index := fun k => if h.linked k then some (h.obj k (h.gen k)) else none
+def Heap.index (h : Heap) : Index := ⟨fun k => if h.linked k then some (h.obj k (h.gen k)) else none⟩
 
 /-- The object `(k, g)` is not (or no longer) the one linked in the index. -/
 def Heap.dead (h : Heap) (k : Key) (g : Nat) : Bool := !(h.linked k && g == h.gen k)
@@ -121,12 +121,13 @@ def tstep (fixed : Bool) (h : Heap) (t : Thread) : TRes :=
           pc := .done (writePush (h.obj k g) sk eps full), commit := true }
     | _ => { heap := h, pc := .looked g full }
 
-/-- A configuration: heap, one thread per operation, and (ghost) the operations in the order of
-    their commit regions. -/
+/-- A configuration: heap, one thread per operation, and (ghost) the commit order: the operations,
+    and the indices of their threads, in the order of their commit regions. -/
 structure Cfg where
   heap    : Heap := {}
   threads : List Thread := []
   log     : List Op := []
+  ilog    : List Nat := []
 
 /-- Thread `i` runs its next lock region. -/
 def cstep (fixed : Bool) (c : Cfg) (i : Nat) : Cfg :=
@@ -135,7 +136,8 @@ def cstep (fixed : Bool) (c : Cfg) (i : Nat) : Cfg :=
   | some t =>
     let r := tstep fixed c.heap t
     { heap := r.heap, threads := c.threads.set i { t with pc := r.pc },
-      log := if r.commit then c.log ++ [t.op] else c.log }
+      log := if r.commit then c.log ++ [t.op] else c.log,
+      ilog := if r.commit then c.ilog ++ [i] else c.ilog }
 
 def initCfg (ops : List Op) : Cfg := { threads := ops.map (fun o => { op := o }) }
 
